@@ -166,9 +166,7 @@ func genBig(r *RNG, j int) KeySet {
 
 func (p *lprofile) numCases(tier string) int {
 	n := len(directedKeySets())*2 + numBig(tier) + len(loadGolden())
-	if p.overLimit {
-		n += 4
-	}
+	n += 2 * len(p.extraDirected())
 	if p.usesExhaustive() {
 		n += exhNumChunks(p.exhTier(tier))
 	}
@@ -178,18 +176,35 @@ func (p *lprofile) numCases(tier string) int {
 	return n + p.quickCases
 }
 
-// caseAt materialises case idx. Returns nil,chunk for exhaustive chunks.
-func (p *lprofile) caseAt(ctx *Ctx, idx int) (*LCase, *ExhSpace, [][]int) {
-	r := NewRNG(caseSeed(ctx.Seed, "lookup-"+p.prop, ctx.Tier, idx))
-	dir := directedKeySets()
+// extraDirected: key lists beyond the documented key length, for the
+// properties whose statement is not limited to it.
+func (p *lprofile) extraDirected() []KeySet {
 	if p.overLimit {
 		// C13 relates the option sets for ANY accepted list: include shared runs
 		// beyond the documented key length (32768..65535 half-bytes), where the
 		// step-only modes and the prefix-storing modes use different code
-		dir = append(dir,
-			KeySet{"directed:run-34000-halfbytes", sortUniq([]string{"a" + rep("x", 17000) + "1", "a" + rep("x", 17000) + "2", "b"})},
-			KeySet{"directed:run-60000-halfbytes", sortUniq([]string{rep("\xfe", 30000) + "\x10", rep("\xfe", 30000) + "\x20z", rep("\xfe", 30000) + "\x30"})})
+		return []KeySet{
+			{"directed:run-34000-halfbytes", sortUniq([]string{"a" + rep("x", 17000) + "1", "a" + rep("x", 17000) + "2", "b"})},
+			{"directed:run-60000-halfbytes", sortUniq([]string{rep("\xfe", 30000) + "\x10", rep("\xfe", 30000) + "\x20z", rep("\xfe", 30000) + "\x30"})}}
 	}
+	if p.prop == "C03" {
+		// C03 is about every Complete trie: stored prefixes have no length limit,
+		// so shared runs of 65536 and more half-bytes (which the step-only modes
+		// refuse) are accepted and must be an exact map as well - at the root and
+		// below an inner node, 16-bit boundary from both sides
+		return []KeySet{
+			{"directed:complete-run-65535-halfbytes", sortUniq([]string{"a" + rep("x", 32767) + "\x71", "a" + rep("x", 32767) + "\x72", "a" + rep("x", 32767) + "\x72z", "b"})},
+			{"directed:complete-run-65536-halfbytes", sortUniq([]string{rep("\xfe", 32768) + "\x10", rep("\xfe", 32768) + "\x20z", rep("\xfe", 32768) + "\x30", rep("\xfe", 32768) + "\x30\x00"})},
+			{"directed:complete-run-80001-halfbytes", sortUniq([]string{"a", "a" + rep("xy", 20000) + "\x71", "a" + rep("xy", 20000) + "\x7f", "a" + rep("xy", 20000) + "\x7fq", "b", "c" + rep("z", 33000), "c" + rep("z", 33000) + "z"})},
+		}
+	}
+	return nil
+}
+
+// caseAt materialises case idx. Returns nil,chunk for exhaustive chunks.
+func (p *lprofile) caseAt(ctx *Ctx, idx int) (*LCase, *ExhSpace, [][]int) {
+	r := NewRNG(caseSeed(ctx.Seed, "lookup-"+p.prop, ctx.Tier, idx))
+	dir := append(directedKeySets(), p.extraDirected()...)
 	if idx < len(dir)*2 {
 		ks := dir[idx/2]
 		kind := p.pickKind(r)
@@ -200,7 +215,11 @@ func (p *lprofile) caseAt(ctx *Ctx, idx int) (*LCase, *ExhSpace, [][]int) {
 				kind = "i32"
 			}
 		}
-		return &LCase{Family: ks.Family, Keys: ks.Keys, Vals: genVals(r, kind, len(ks.Keys), style), QMax: p.qmax, R: r}, nil, nil
+		qmax := p.qmax
+		if len(ks.Keys) > 0 && len(ks.Keys[len(ks.Keys)/2]) > 32000 && qmax > 500 {
+			qmax = 500 // tens of kilobytes per query string
+		}
+		return &LCase{Family: ks.Family, Keys: ks.Keys, Vals: genVals(r, kind, len(ks.Keys), style), QMax: qmax, R: r}, nil, nil
 	}
 	idx -= len(dir) * 2
 	if idx < numBig(ctx.Tier) {
@@ -1096,6 +1115,14 @@ func runLookupCase(ctx *Ctx, prop string, lc *LCase, caseIdx int) {
 				try(func() {
 					other, _ := trie.NewSlimTrie(enc, []string{"p", "q"}, nil)
 					ob, _ := other.Marshal()
+					if (caseIdx+oi)%8 == 2 {
+						// loads that are refused (too short for a header, foreign
+						// version, cut body) come first: the original still holds
+						// what the copy holds when they fail
+						try(func() { orig.Unmarshal(ob[:11]) })
+						try(func() { orig.Unmarshal(withVersion(ob, "0.6.1")) })
+						try(func() { orig.Unmarshal(ob[:len(ob)-1]) })
+					}
 					orig.Unmarshal(ob)
 					proto.Unmarshal(ob, orig)
 					orig.Reset()
@@ -1151,6 +1178,59 @@ func runLookupCase(ctx *Ctx, prop string, lc *LCase, caseIdx int) {
 				})
 				if rerr != nil {
 					insts = append(insts, Inst{"after-refused-reload", rj})
+				}
+			}
+		}
+		// C18 is about whatever the instance holds: after a direct load that was
+		// refused, an instance that answers as an empty trie must report (0 keys,
+		// 0 nodes), and one that still serves its keys must report them. (Which of
+		// the two it is after a refusal is C07's business and is not judged here.)
+		if prop == "C18" && !lc.Exh && (caseIdx+oi)%4 == 3 && len(m.RetKeys) >= 2 {
+			if rj, err, pv, _ := loadTrie(enc, stream); err == nil && pv == nil {
+				env.inst = "after-refused-reload"
+				env.st = rj
+				var rerr error
+				var s0, s1 *trie.Stat
+				kind := []string{"foreign-version", "cut-header", "cut-body", "empty-buffer"}[((caseIdx+oi)/4)%4]
+				pv, stack := try(func() {
+					s0 = rj.Stat()
+					switch kind {
+					case "foreign-version":
+						rerr = rj.Unmarshal(withVersion(stream, "9.9.9"))
+					case "cut-header":
+						rerr = rj.Unmarshal(stream[:min(len(stream), 7+caseIdx%20)])
+					case "cut-body":
+						rerr = rj.Unmarshal(stream[:len(stream)-1-caseIdx%3])
+					default:
+						rerr = rj.Unmarshal(nil)
+					}
+					s1 = rj.Stat()
+				})
+				if pv != nil {
+					env.viol("panic", "", map[string]interface{}{"refused_load": kind, "panic": fmt.Sprint(pv), "stack": stack})
+				} else if rerr != nil && s0 != nil && s1 != nil {
+					found := 0
+					stride := 1 + len(m.RetKeys)/300
+					asked := 0
+					try(func() {
+						for i := 0; i < len(m.RetKeys); i += stride {
+							asked++
+							if rj.GetID(m.RetKeys[i]) >= 0 {
+								found++
+							}
+						}
+					})
+					ex := map[string]interface{}{"refused_load": kind, "error": rerr.Error(), "stat_before": fmt.Sprintf("%+v", *s0), "stat_after": fmt.Sprintf("%+v", *s1), "retained_keys_asked": asked, "still_found": found}
+					switch {
+					case found == 0 && (s1.KeyCnt != 0 || s1.NodeCnt != 0):
+						ex["what"] = "after the refused load no key is found any more, but Stat still reports keys / nodes"
+						env.viol("stat-after-refused-load", "", ex)
+					case found == asked && int(s1.KeyCnt) != len(m.RetKeys):
+						ex["what"] = "after the refused load every key is still found, but Stat does not report them"
+						env.viol("stat-after-refused-load", "", ex)
+					default:
+						ctx.Count("stat_after_refused_load_consistent", 1)
+					}
 				}
 			}
 		}
